@@ -1,0 +1,30 @@
+# Licensed under a 3-clause BSD style license - see LICENSE.rst
+"""
+Verification hooks (add-only instrumentation).
+
+All functions here are no-ops unless the environment variable
+``PHOTUTILS_VERIF`` is set to ``1`` *and* a sink has been installed by
+an external test harness.
+"""
+
+import os
+
+_ENABLED = os.environ.get('PHOTUTILS_VERIF') == '1'
+_SINK = None
+
+
+def set_sink(sink):
+    """
+    Install (or remove, with `None`) the list that receives events.
+    """
+    global _SINK  # noqa: PLW0603
+    _SINK = sink
+
+
+def emit(event, **fields):
+    """
+    Record one event (a dict) in the installed sink, if enabled.
+    """
+    if not _ENABLED or _SINK is None:
+        return
+    _SINK.append({'ev': event, **fields})
